@@ -89,7 +89,8 @@ Close(kind, minor) ==
   /\ LET d == IF par.layout = "canon" THEN Remap(db, 1) ELSE db
          h == HdrOf(kind, minor, NumRecs(db))
          file == WriteDbAs(d, h.major, h.minor)
-         cuts == IF kind = "ok" /\ par.a \in CutStrs /\ par.layout \in MultiLayouts /\ NumRecs(db) <= CutRecs THEN 0..(Len(file) - 1) ELSE {}
+         cuts == IF kind = "ok" /\ par.a \in CutStrs /\ par.layout \in MultiLayouts /\ NumRecs(db) <= CutRecs
+                    /\ (minor = CurrentMinor \/ Len(db.e) > 0) THEN 0..(Len(file) - 1) ELSE {}
      IN \E c \in {-1} \cup cuts :
         /\ db' = d /\ hdr' = h /\ cut' = c
         /\ stream' = IF c = -1 THEN file ELSE SubSeq(file, 1, c)
